@@ -40,6 +40,8 @@ pub struct PoolIndex {
     pub focus_exprs: Vec<u32>,
     /// expressions of origin value_relatives: their entries are one base placeholder and its representation relatives
     pub rel_exprs: Vec<u32>,
+    /// expressions of origin arg_lattice (one formula, 256 evenly spaced placeholders), per evaluator
+    pub lattice_exprs: Vec<Vec<u32>>,
 }
 
 pub const FN_TOKENS: [&str; 64] = [
@@ -136,6 +138,12 @@ pub fn index_pool(pool: &mut Pool) -> PoolIndex {
     for (id, es) in pool.by_expr.iter().enumerate() {
         if es.len() >= 2 && pool.entries[es[0] as usize].origin == "value_relatives" {
             ix.rel_exprs.push(id as u32);
+        }
+        if es.len() >= 2 && pool.entries[es[0] as usize].origin == "arg_lattice" {
+            if ix.lattice_exprs.is_empty() {
+                ix.lattice_exprs = vec![Vec::new(); 5];
+            }
+            ix.lattice_exprs[pool.entries[es[0] as usize].call.ev as usize].push(id as u32);
         }
         if es.len() >= 2 {
             let first = &pool.entries[es[0] as usize].oracle;
@@ -345,6 +353,21 @@ fn restart_spec(pool: &Pool, ix: &PoolIndex, seed: u64, allow_intra: bool) -> Ru
     let size = [40usize, 150, 400, 800][r.below(4)];
     let hb: Vec<usize> = ix.hint_buckets.iter().copied().filter(|b| ix.fn_buckets[*b].0 == ev as u8).collect();
     let mut set: Vec<u32> = Vec::with_capacity(size);
+    // half of the runs over a focused change work through whole argument lattices of one to three of the functions
+    // it names: hundreds of distinct arguments, so that whatever the library accumulates (tables, files) gets big
+    let lat: &[u32] = ix.lattice_exprs.get(ev as usize).map(|v| v.as_slice()).unwrap_or(&[]);
+    if !lat.is_empty() && r.chance(0.5) {
+        for _ in 0..r.range(1, 3) {
+            let ex = *r.pick(lat);
+            for e in pool.by_expr[ex as usize].iter() {
+                let en = &pool.entries[*e as usize];
+                if !matches!(en.oracle, Outcome::Panic(_)) && !set.contains(e) {
+                    set.push(*e);
+                }
+            }
+        }
+    }
+    let size = size.max(set.len());
     let mut guard = 0;
     while set.len() < size && guard < size * 30 {
         guard += 1;
